@@ -21,7 +21,7 @@ for d in sorted(glob.glob('/verif/seeded/C*')):
     if sid=='C09b':
         note="Confirmed against the tree as it was before fix 83f6df2 (demonstration failed with the change). The fix (API handlers compute averages on a private Pegnetd) neutralises this change: on the repaired tree the demonstration passes with the change applied and no check reports it (C18 verifies that the handler writes only its own map). Kept for the record."
         rows[sid]=[('C09','not applicable on the repaired tree (neutralised by fix 83f6df2)',[]),('C18','passes (correctly: the change is harmless now)',[])]
-    meta={"id":sid,"property":sid[:3],"round":{"c":2,"d":3,"e":4}.get(sid[-1],1),
+    meta={"id":sid,"property":sid[:3],"round":{"c":2,"d":3,"e":4,"f":5}.get(sid[-1],1),
       "summary":am.get('summary'),"needs_to_manifest":am.get('needs_to_manifest'),"files_changed":am.get('files_changed'),
       "patch":"patch.diff"+(" (rebased onto the fix commits; the sub-agent's original is patch.original.diff)" if os.path.exists(d+'/patch.original.diff') else ""),
       "demonstration":demo,
@@ -30,6 +30,11 @@ for d in sorted(glob.glob('/verif/seeded/C*')):
          "demonstration_with_change":cf['demo_with_change'],"demonstration_without_change":cf['demo_without_change'],
          "note":"pinned suite run serially (it writes /tmp/pegnet-tmp.db); TestConversions_Convert_Random is randomised and fails in ~4 of 10 runs on the unchanged tree, not counted"},
       "checks_run_against_it":[{"check":p,"result":r,"first_failed_obligations":o} for p,r,o in rows.get(sid,[])]}
+    if sid=='C18f':
+        note="Confirmed to apply, build and pass the suite on the current HEAD, but the demonstration PASSES with the change there: the fix 83f6df2 (API handlers compute averages on a private Pegnetd) neutralises it -- a cancelled request can no longer poison the averages cache the sync routine uses. On the pinned tree (before the fix) the sub-agent's demonstration failed with the change. Kept for the record."
+        rows[sid]=[('C18','passes (correctly: the change is harmless on the repaired tree, neutralised by fix 83f6df2)',[])]
+        meta["checks_run_against_it"]=[{"check":p_,"result":r_,"first_failed_obligations":o_} for p_,r_,o_ in rows[sid]]
+        meta["note"]=note
     if note: meta["note"]=note
     json.dump(meta,open(d+'/meta.json','w'),indent=1)
     res='; '.join("%s: %s%s"%(p,r,(' ('+', '.join(x.replace('__','').strip('_')[:60] for x in o[:2])+')') if o else '') for p,r,o in rows.get(sid,[]))
@@ -43,20 +48,22 @@ j=s.index('\n## 0. Summary table')
 k=s.rindex('---------------------------------------------------------------------------------------',i,j)
 new='''### S.7 Seeded changes — which check catches which
 
-72 changes: two per property written by sub-agents in round 1 (suffix a, b; scratch worktrees of the pinned commit, only the
+92 changes: two per property written by sub-agents in round 1 (suffix a, b; scratch worktrees of the pinned commit, only the
 property text given), twelve more in round 2 (suffix c, prompted to aim at helpers, glue code, SQL, error paths, activation
 boundaries) eight in round 3 (suffix d, prompted to write the change as a plausible refactoring, optimisation or
 "fix" a reviewer would accept) and twelve in round 4 (suffix e, for the properties round 3 left out, prompted for small
-corner-case edits: an operator, a moved or dropped statement, an SQL predicate, a swallowed error).  Each was confirmed by me in a scratch worktree of the current HEAD (applies, builds, pinned suite passes,
-demonstration fails with the change and passes without); seven patches (C02a, C13b, C18a, C18b, C18d, C20b, C20d) had to be rebased onto
+corner-case edits: an operator, a moved or dropped statement, an SQL predicate, a swallowed error) and twenty in round 5
+(suffix f, one per property, each agent steered to one kind of detail: arithmetic/integer conversion, an SQL statement,
+error handling, an era boundary, or the order and scope of operations, away from the most obvious line).  Each was confirmed by me in a scratch worktree of the current HEAD (applies, builds, pinned suite passes,
+demonstration fails with the change and passes without); eight patches (C02a, C13b, C13f, C18a, C18b, C18d, C20b, C20d) had to be rebased onto
 the fix commits (the original is kept beside them).  `seeded/<id>/meta.json` records what was run; `seeded/matrix_raw.log` is
 the raw output of `tools/seed_matrix.sh` (equivalent to `git -C /repo apply <patch>; ./check <P>; git -C /repo checkout -- .`,
 on a scratch copy so that several can run at once and the committed evidence is not overwritten).
 
 '''+open('/tmp/matrix.md').read()+'''
-All 71 live changes are caught by the check of the property they break (C09b is no longer a defect on the repaired tree).
-How: **bounded stand-ins only** — C02a, C06b, C11b, C11c, C14a, C16b, C17a (SQL text or an assumed function), C09a, C09d
-(averages), C04e (`recordPegnetRequests`), C11e (previous winners query), C14e (snapshot rotation under faults), C10a, C10c, C10e (`multiFetch`), C20a (JSON decoders); **proof obligations** (plus, for the arithmetic cores, a
+All 90 live changes are caught by the check of the property they break (C09b and C18f are no longer defects on the repaired tree: fix 83f6df2 neutralises them).
+How: **bounded stand-ins only** — C02a, C06b, C11b, C11c, C14a, C16b, C17a (SQL text or an assumed function), C09a, C09d, C09f
+(averages), C04e (`recordPegnetRequests`), C11e (previous winners query), C14e (snapshot rotation under faults), C01f, C06f, C10f, C11f, C16f, C17f (leaves, see below), C10a, C10c, C10e (`multiFetch`), C20a (JSON decoders); **proof obligations** (plus, for the arithmetic cores, a
 concrete failing input from the bounded counterexample search) — all others.  Round 2 first missed C03c (caught only by
 C13's check: the reject-code mapping is now tagged C03 as well), C06c/C16c (PEG requests paid twice: the ghost set
 `LpegPaid` was added), C12c (capitalisation computed under the wrong names: the sum and the renaming were pinned), C14c
@@ -77,6 +84,17 @@ rotation fails and the error is shadowed: the stand-in for `SnapshotCurrent` onl
 statement-fault stand-in — fail statement k of the leaf, for every k, the leaf must report it — was added for the snapshot
 rotation and for fifteen other writing leaves).  C06e is reported as a refusal (the contract names the loop counter `i`,
 the change renames it and leaves another `i` in scope); with the name kept it fails `loop 2 invariant batches`.
+Round 5 first missed four of nineteen live changes, all in code the proofs only ASSUME: C01f (`InsertStakingCoinbase`
+numbers the payout records by a running counter over the payout map, i.e. by map iteration order — a stand-in now pins
+"the record of payout <rank> is stored under tx_index <rank>"), C06f (`SelectMostRecentRatesBeforeHeight` looks the
+last rated height up in `pn_grade`: the rates stand-in was not run for C06 and had no graded rows — it now runs for
+every property that verifies the holding path and inserts graded rows at unrelated heights), C10f (a failed rates read
+inside `GetPegNetRateAverages` is logged instead of fatal before PIP10 and leaves a hole in the window — new stand-in:
+every rates query of the call sequence fails once and must be fatal or harmless) and C17f (scan destinations hoisted out
+of the row loop of the history reader, a conversion row inherits the outputs of the transfer before it — the paging
+stand-in now compares every returned action field by field with what was recorded).  C13f is the buggy twin of the
+harmless edit h23 (the `ValidatePegTx` verdict is overwritten): it fails the precondition
+`no_conversion_into_PEG_from_2_0` of `applyTransactionBatch`, h23 passes.
 A change that moves code into a new helper without a contract is reported through the
 havoc of the uncontracted call (C11a, C15c, C16c, C18a, C18b): that is "needs contract", reported as a violation because
 obligations of the baseline stop discharging.
